@@ -13,7 +13,7 @@ VARIABLES l,        \* next line to judge
           snap      \* [line, aux] of the last Commit (or InitChain): what a restart must resume from
 vars == <<l, aux, bad, snap>>
 
-InitAux == [props |-> <<>>, nextProp |-> 1, ever |-> [wrk |-> <<>>, bcn |-> <<>>], sh |-> <<>>, ghost |-> {}, ghostp |-> {}, exsig |-> {}, overcap |-> FALSE]
+InitAux == [props |-> <<>>, nextProp |-> 1, ever |-> [wrk |-> <<>>, bcn |-> <<>>], sh |-> <<>>, ghost |-> {}, ghostp |-> {}, exsig |-> {}, overcap |-> FALSE, approved |-> {}]
 
 ------------------------------------------------------------------------------
 (* L2: view comparison between the expected and the observed post-state *)
@@ -132,7 +132,7 @@ IsReset(ev) == ev.a = "InitChain"
 \* "Adopt": a scenario-preparation line (harness event Bulk: thousands of records executed without recording each one).
 \* Its observed post-state is adopted as the new starting point; what is in state counts as the acceptance history.
 IsAdopt(ev) == ev.a = "Adopt"
-AdoptAux(o) == [InitAux EXCEPT !.ever = [wrk |-> [i \in DOMAIN o.wrk.ch |-> o.wrk.ch[i].recs], bcn |-> [i \in DOMAIN o.bcn.ch |-> o.bcn.ch[i].recs]]]
+AdoptAux(o) == [InitAux EXCEPT !.approved = { o.ent.po[i].id : i \in { j \in DOMAIN o.ent.po : o.ent.po[j].st \in {"accepted", "completed"} } }, !.ever = [wrk |-> [i \in DOMAIN o.wrk.ch |-> o.wrk.ch[i].recs], bcn |-> [i \in DOMAIN o.bcn.ch |-> o.bcn.ch[i].recs]]]
 
 Tag(i, layer, props, detail) == { <<i, layer, p, detail>> : p \in props }
 
@@ -187,9 +187,15 @@ Judge(i) ==
            ELSE { <<i, "L1", m[1], m[2]>> : m \in StepMonitors(Trace[i - 1].post, ev.post, evm) })
      \cup { <<i, "L1", m[1], m[2]>> : m \in HistMonitors(ev.post, exp.st.aux) }
      \cup (IF ~FailedTxKeepsState(Trace[i - 1].post, ev.post, evm, ev.res.ok) THEN {<<i, "L1", "C14", "FailedTxKeepsState">>} ELSE {})
+     \cup (IF ~FailedTxKeepsStores(Trace[i - 1].post, ev.post, evm, ev.res.ok) THEN {<<i, "L1", "C14", "FailedTxChangedAModuleStore">>} ELSE {})
+     \cup (IF ~ReadOnlyKeepsStores(Trace[i - 1].post, ev.post, evm) THEN {<<i, "L1", "C14", "ReadOnlyCallChangedAModuleStore">>} ELSE {})
      \cup (IF "mints" \in DOMAIN ev.res /\ \E d \in Denoms : ev.res.mints[d] - ev.res.burns[d] # ev.post.supply[d] - Trace[i - 1].post.supply[d]
            THEN {<<i, "L1", "C02", "MintBurnEventsMatchSupplyDelta">>} ELSE {})
      \cup (IF "burns" \in DOMAIN ev.res /\ \E d \in Denoms : ev.res.burns[d] # 0 THEN {<<i, "L1", "C02", "UnexpectedBurn">>} ELSE {})
+     \* an order completes (mints) although the tally rules, applied to the state observed when it was closed, did not accept it
+     \cup (IF ev.a = "BeginBlock" /\ ~ev.post.halted /\ \E k \in Common(Trace[i - 1].post, ev.post) :
+                 Trace[i - 1].post.ent.po[k].st # "completed" /\ ev.post.ent.po[k].st = "completed" /\ ev.post.ent.po[k].id \notin aux.approved
+           THEN {<<i, "L1", "C02", "MintedForAnOrderTheRulesDidNotAccept">>} ELSE {})
      \cup (IF ev.a = "CheckTx" /\ ev.res.ok /\ ~AdmitIdeal(pre, ev.args)
            THEN {<<i, "L1", "C06", AdmissionKind(pre, ev.args)>>} ELSE {})
      \cup (IF ev.a = "Recheck"
